@@ -715,8 +715,9 @@ class tensor:
         rprod = 1 if rdims.size == 0 else np.prod(np.array(tshape)[rdims])
         cprod = 1 if cdims.size == 0 else np.prod(np.array(tshape)[cdims])
         # No permutation is needed for the identity order (keeps copy=False meaningful)
+        # (a tensor enlarged by assignment stores its data C-ordered: re-lay it out)
         permuted_data = (
-            self.data
+            to_memory_order(self.data, self.order)
             if np.array_equal(dims, np.arange(n))
             else self.permute(dims).data
         )
